@@ -29,7 +29,7 @@ Layout(j) == [comps |-> j.comps, has |-> j.has, resets |-> j.resets, plain |-> j
               fbtypes |-> [k \in {j.feedbacks[i].key : i \in 1..Len(j.feedbacks)} |->
                              (LET i == CHOOSE i \in 1..Len(j.feedbacks) : j.feedbacks[i].key = k IN j.feedbacks[i].ty)],
               sm |-> ToSet(j.sm), teleAuto |-> j.teleAuto, modes |-> ToSet(j.modes), defmode |-> j.defmode,
-              period |-> j.period]
+              period |-> j.period, rp |-> IF "rp" \in DOMAIN j THEN j.rp ELSE TRUE]
 
 TInit == /\ tid \in 1..Len(Batch) /\ l = 1 /\ verdict = "" /\ vkind = "" /\ vnew = FALSE /\ seen = {}
          /\ adopted = 0 /\ lastSw = FALSE /\ mon = [lastM |-> "", prevEnabled |-> FALSE, afterWake |-> FALSE, bad |-> "", fbc |-> <<>>,
@@ -85,7 +85,7 @@ Adopt(ev, d) ==      \* take over observed data so that later clauses are still 
     /\ fbNT' = IF "fb" \in d THEN [k \in DOMAIN fbNT |-> ev.fb[k]] ELSE fbNT
     /\ smReq' = IF "smstate" \in d THEN [c \in sh.sm |-> IF c = ev.o THEN ev.st = "go" ELSE smReq[c]] ELSE smReq
     /\ autoT0' = IF "arg" \in d THEN now' - ev.arg ELSE autoT0
-    /\ UNCHANGED <<sh, ds, dsNew, fms, exit, selStr, pc, mode, todo, fbleft, en, nsetup, active, iterNo, mIter,
+    /\ UNCHANGED <<sh, chooser, chooserNew, ds, dsNew, fms, exit, selStr, pc, mode, todo, fbleft, en, nsetup, active, iterNo, mIter,
                    nfault, swallowed>>
 
 (* ---- monitors: predicates over the recorded events only (no specification state), so that they keep
